@@ -85,7 +85,7 @@ def _drop_member_fingerprints(pkgs):
                 shutil.rmtree(os.path.join(fp, d), ignore_errors=True)
 
 
-def extract(tier="quick", repo=REPO, quiet=False):
+def extract(tier="quick", repo=REPO, quiet=False, _retry=True):
     """returns (facts_dir, tree_hash, n_files, fresh:bool, seconds)"""
     os.makedirs(CACHE, exist_ok=True)
     crates = THOROUGH_CRATES if tier == "thorough" else QUICK_CRATES
@@ -128,6 +128,11 @@ def extract(tier="quick", repo=REPO, quiet=False):
         th2, _ = tree_hash(repo)
         if th2 != th:
             shutil.rmtree(out, ignore_errors=True)
+            if _retry:
+                # cargo itself writes Cargo.lock when the tree has none (a fresh checkout: the file is git-ignored):
+                # analyse again, now against the tree as cargo left it
+                fcntl.flock(lk, fcntl.LOCK_UN)
+                return extract(tier, repo, quiet, _retry=False)
             print("ERROR: /repo changed while facts were extracted; re-run")
             raise SystemExit(2)
         _prune(keep=out)
